@@ -225,16 +225,21 @@ func (s *LogStore) triggerVerify(r VerificationReport) {
 
 // DeleteRange deletes a range of log entries. The range is inclusive.
 func (s *LogStore) DeleteRange(min uint64, max uint64) error {
+	last, lastErr := s.s.LastIndex()
 	if err := s.s.DeleteRange(min, max); err != nil {
 		return err
 	}
-	// The running checksum may cover entries that were just removed (a tail
-	// truncation followed by re-appending different or even identical entries at
-	// the same indexes). Start over from the next entry written; the next
-	// checkpoint will then not claim a written sum for a range we only partly
-	// summed.
-	atomic.StoreUint64(&s.checksum, 0)
-	atomic.StoreUint64(&s.sumStartIdx, 0)
+	// A tail truncation removes entries the running checksum may already cover
+	// (the same indexes are typically written again afterwards, with different
+	// or even identical entries). Start over from the next entry written; the
+	// next checkpoint will then not claim a written sum for a range we only
+	// partly summed. Head truncations (log compaction) don't invalidate the sum
+	// and are left alone: raft issues them from its snapshot goroutine
+	// concurrently with StoreLogs, which owns this state.
+	if lastErr != nil || max >= last {
+		atomic.StoreUint64(&s.checksum, 0)
+		atomic.StoreUint64(&s.sumStartIdx, 0)
+	}
 	return nil
 }
 
